@@ -216,6 +216,57 @@ func refSig0(b []byte) (*refSig, bool) {
 	return s, true
 }
 
+// refSig0Lenient reads the last record the way a verifier that trusts the counts
+// but not the SIG's RDLENGTH would: all records but the last framed by RDLENGTH,
+// then owner, ten octets, 18 fixed RDATA octets, signer name, and the signature
+// up to the end of the buffer. Only used to fill the model's crypto table.
+func refSig0Lenient(b []byte) (*refSig, bool) {
+	if len(b) < 12 {
+		return nil, false
+	}
+	qd := int(binary.BigEndian.Uint16(b[4:]))
+	adc := binary.BigEndian.Uint16(b[10:])
+	total := int(binary.BigEndian.Uint16(b[6:])+binary.BigEndian.Uint16(b[8:])+adc) - 1
+	off := 12
+	for i := 0; i < qd && off < len(b); i++ {
+		_, o, k := refName(b, off)
+		if !k {
+			return nil, false
+		}
+		off = o + 4
+	}
+	for i := 0; i < total && off < len(b); i++ {
+		_, o, k := refName(b, off)
+		if !k {
+			return nil, false
+		}
+		off = o + 8
+		if off+1 >= len(b) {
+			continue
+		}
+		off += 2 + int(binary.BigEndian.Uint16(b[off:]))
+	}
+	if off >= len(b) {
+		return nil, false
+	}
+	bodyend := off
+	_, o, k := refName(b, off)
+	if !k || o+10+18+1 > len(b) {
+		return nil, false
+	}
+	rd := o + 10
+	signer, se, k := refName(b, rd+18)
+	if !k {
+		return nil, false
+	}
+	s := &refSig{signer: signer, sigEnd: se, sig: b[se:]}
+	s.data = append([]byte(nil), b[rd:se]...)
+	s.data = append(s.data, b[:10]...)
+	s.data = append(s.data, byte((adc-1)>>8), byte(adc-1))
+	s.data = append(s.data, b[12:bodyend]...)
+	return s, true
+}
+
 func wireOf(ls [][]byte) []byte {
 	var w []byte
 	for _, l := range ls {
@@ -437,7 +488,11 @@ func emitVerify(buf []byte, fallback *dns.SIG, kp keyPair, verifier *dns.KEY) st
 		return got // the clock ticked during the call: not replayable
 	}
 	table := ":::" + defaultClass(kp)
-	if rs, ok := refSig0(buf); ok {
+	rs, ok := refSig0(buf)
+	if !ok {
+		rs, ok = refSig0Lenient(buf)
+	}
+	if ok {
 		table = Hx(rs.data) + ":" + Hx(rs.sig) + ":" + directVerify(kp, used.Algorithm, rs.data, rs.sig) + ":" + defaultClass(kp)
 	}
 	args := append(sigArgs(used), Hx(nameWire(verifier.Hdr.Name)), Hx(buf), u(uint64(t0)), table)
